@@ -28,6 +28,7 @@ type c17Scenario struct {
 	H      []wOp  `json:"h"`
 	FailAt int    `json:"failAt"` // the prior sink fails after this many bytes (-1: never)
 	API    string `json:"api,omitempty"`
+	Scale  int    `json:"scale,omitempty"` // as in c01: every write k times larger, rows from the high-cardinality id space
 }
 
 type failingSink struct {
@@ -75,8 +76,11 @@ func c17Silent(w wWriter, ops []wOp, seed uint64, salt int) {
 	}
 }
 
+// c17Base: first row id of a produced file (wBulk for scenarios at scale)
+var c17Base int
+
 func c17Produce(w wWriter, ops []wOp, seed uint64) error {
-	next := 0
+	next := c17Base
 	closed := false
 	for _, op := range ops {
 		var err error
@@ -145,7 +149,17 @@ func c17Main(args []string) error {
 		}
 		encPick := r.next() // the same encoding choices for every writer of this scenario
 		mk := func(out io.Writer) wWriter { return wNew(api, out, wOptions(sc.Cfg, &rng{s: encPick})) }
-		tr.begin(ev{"sc": sc.ID, "key": fmt.Sprintf("%d/%s", rid, api), "build": build, "api": api, "cfg": sc.Cfg})
+		c17Base = 0
+		if sc.Scale > 1 {
+			c17Base = wBulk
+			sc.Cfg.MaxRows *= sc.Scale
+			for _, ops := range [][]wOp{sc.Prior, sc.H} {
+				for i := range ops {
+					ops[i].N *= sc.Scale
+				}
+			}
+		}
+		tr.begin(ev{"sc": sc.ID, "key": fmt.Sprintf("%d/%s", rid, api), "build": build, "api": api, "cfg": sc.Cfg, "scale": sc.Scale})
 		emit := func(variant string, data []byte, err error) {
 			sum := sha256.Sum256(data)
 			e := ev{"variant": variant, "err": b2i(err != nil), "sha": hex.EncodeToString(sum[:]), "len": len(data)}
@@ -179,6 +193,13 @@ func c17Main(args []string) error {
 			w.reset(buf)
 			err := c17Produce(w, sc.H, seed)
 			return buf.Bytes(), err
+		})
+		// the bytes do not depend on what recycled pool memory holds: the same file with every buffer that goes
+		// back to the pools overwritten (hook)
+		run("poisoned", func() ([]byte, error) {
+			parquet.VerifSetPoison(true)
+			defer parquet.VerifSetPoison(false)
+			return fresh()
 		})
 		run("goroutine", func() ([]byte, error) {
 			type res struct {
